@@ -139,6 +139,8 @@ impl DataLog {
                     .collect();
 
                 #[cfg(rumqtt_verif)]
+                let v = crate::verif::fix_order(v);
+                #[cfg(rumqtt_verif)]
                 crate::verif::record(format!("matches {:?}", v));
 
                 if !v.is_empty() {
@@ -306,15 +308,25 @@ impl DataLog {
         });
 
         #[cfg(rumqtt_verif)]
-        crate::verif::record(format!(
-            "retained {:?}",
-            self.retained_publishes
+        {
+            let topics: Vec<Topic> = crate::verif::fix_order(
+                self.retained_publishes
+                    .keys()
+                    .filter(|topic| matches(topic, filter))
+                    .cloned()
+                    .collect(),
+            );
+            crate::verif::record(format!("retained {:?}", topics));
+            return topics
                 .iter()
-                .filter(|(topic, _)| matches(topic, filter))
-                .map(|(topic, _)| topic.clone())
-                .collect::<Vec<_>>()
-        ));
+                .map(|topic| {
+                    let p = &self.retained_publishes[topic];
+                    (p.publish.clone(), p.properties.clone())
+                })
+                .collect();
+        }
 
+        #[cfg(not(rumqtt_verif))]
         // no need to include timestamp when returning
         self.retained_publishes
             .iter()
